@@ -81,15 +81,15 @@ def send(eng, idx, v, asbytes, opsel):
     return env.run(eng.execute(q, variables=variables, operation_name=op, context=ctx))
 
 
-SH16 = [{"cfg": c, "first": f, "second": g} for c in ENGS for f in range(len(POOL)) for g in range(len(POOL))]
-Q16 = [i for i, s in enumerate(SH16) if (s["cfg"], s["first"], s["second"]) in (("default", 0, 0), ("default", 1, 1), ("default", 2, 2), ("default", 3, 3), ("default", 6, 0), ("default", 4, 1),
+SH16 = [{"cfg": c, "first": f, "second": g, "b1": b, "o": o} for c in ENGS for f in range(len(POOL)) for g in range(len(POOL)) for b in (1, 0) for o in (1, 0) if c == "default" or (b, o) == (1, 1)]
+Q16 = [i for i, s in enumerate(SH16) if (s["b1"], s["o"]) == (1, 1) and (s["cfg"], s["first"], s["second"]) in (("default", 0, 0), ("default", 1, 1), ("default", 2, 2), ("default", 3, 3), ("default", 6, 0), ("default", 4, 1),
                                                                                ("lru1", 1, 0), ("lru1", 2, 4), ("dict", 2, 2), ("dict", 8, 8), ("none", 1, 1), ("default", 7, 7))]
 
 
 @obligation(tier="quick", timeout=300, thorough_timeout=900, shards=SH16, quick_shards=Q16,
             samples=[{"i2": 1, "v0": 1, "v1": 2, "b1": True, "o": True}, {"i2": 0, "v0": 2**31, "v1": None, "b1": False, "o": False}],
             symbolic=["v0: int, v1: Optional[int] — the variables of the first two requests (unbounded); the third request reuses v0"],
-            selectors=["i2: pool index of the 3rd request", "b1: str or bytes spelling of the 2nd request (the 3rd uses the other one)", "o: operation name / failure selector", "shard: cache configuration, first and second request"],
+            selectors=["i2: pool index of the 3rd request", "shard: cache configuration, first and second request, str/bytes spelling of the 2nd request (the 3rd uses the other one), operation name / failure selector"],
             bounds="sequences of 3 requests (every prefix is checked position by position) over 9 documents",
             note="every response of the sequence == the uncached engine's response to the same request; repeating a request gives the same response; failed/invalid requests leave no trace")
 def c16_history(i2: int, v0: int, v1: Optional[int], b1: bool, o: bool) -> bool:
@@ -99,9 +99,9 @@ def c16_history(i2: int, v0: int, v1: Optional[int], b1: bool, o: bool) -> bool:
     sh = shard()
     eng = ENGS[sh["cfg"]]
     idxs = [sh["first"], sh["second"], pick(i2, len(POOL))]
-    b1 = pickb(b1)
+    b1 = bool(sh["b1"])
     vs = [v0, v1, v0]; bs = [False, b1, not b1]
-    o = pickb(o)
+    o = bool(sh["o"])
     reset_caches()
     for k, idx in enumerate(idxs):
         ok, r = safe(lambda: send(eng, idx, vs[k], bs[k], o))
